@@ -213,6 +213,26 @@ func factsAt(b *ssa.BasicBlock) []edgeFact {
 	return out
 }
 
+var complementOp = map[token.Token]token.Token{
+	token.EQL: token.NEQ, token.NEQ: token.EQL,
+	token.LSS: token.GEQ, token.GEQ: token.LSS,
+	token.GTR: token.LEQ, token.LEQ: token.GTR,
+}
+
+var complementCache = map[*ssa.BinOp]*ssa.BinOp{}
+
+// complementOf returns a synthetic comparison with the complementary operator
+// over the same operands (it belongs to no block; only Op, X and Y are
+// meaningful). One instance per original, so that facts stay comparable.
+func complementOf(bo *ssa.BinOp, op token.Token) *ssa.BinOp {
+	if c, ok := complementCache[bo]; ok {
+		return c
+	}
+	c := &ssa.BinOp{Op: op, X: bo.X, Y: bo.Y}
+	complementCache[bo] = c
+	return c
+}
+
 // expandFacts decomposes facts through boolean negation (UnOp !) and through
 // the phis go/ssa builds for && and || in value position (switch cases):
 // a true && chain means every conjunct is true, a false || chain that every
@@ -235,6 +255,18 @@ func expandFacts(fs []edgeFact) []edgeFact {
 		}
 		seen[f] = true
 		out = append(out, f)
+		// a comparison known false is its complement known true: consumers look
+		// for "x == y is true" and must also see "x != y is false" (guard clauses)
+		if bo, ok := f.Cond.(*ssa.BinOp); ok && !f.Truth && bo.Block() != nil {
+			if cop, ok := complementOp[bo.Op]; ok {
+				nb := complementOf(bo, cop)
+				nf := edgeFact{Cond: nb, Truth: true, From: f.From}
+				if !seen[nf] {
+					seen[nf] = true
+					out = append(out, nf)
+				}
+			}
+		}
 		phi, ok := f.Cond.(*ssa.Phi)
 		if !ok {
 			return
@@ -503,4 +535,161 @@ func naturalLoop(h *ssa.BasicBlock) map[*ssa.BasicBlock]bool {
 		work = append(work, b.Preds...)
 	}
 	return loop
+}
+
+// ---------------------------------------------------------------------------
+// summaries of small search helpers
+
+// An existsSummary describes a function "is there an element of <collection>
+// whose name equals <parameter>": it returns true only right after such an
+// equality held and false only after the whole collection was scanned.
+type existsSummary struct {
+	nameParam int       // index of the parameter compared with the elements
+	collParam int       // index of the slice parameter scanned (-1: a field of the receiver)
+	collField string    // field of the receiver scanned (collParam == -1)
+	elemField string    // "" when the elements themselves are compared, else the field (Name, FromName)
+	eq        *ssa.BinOp // the comparison
+}
+
+var existsCache = map[*ssa.Function]*existsSummary{}
+var existsDone = map[*ssa.Function]bool{}
+
+func existsPredicate(fn *ssa.Function) *existsSummary {
+	if existsDone[fn] {
+		return existsCache[fn]
+	}
+	existsDone[fn] = true
+	if fn == nil || fn.Blocks == nil || fn.Signature.Results().Len() != 1 {
+		return nil
+	}
+	if bt, ok := fn.Signature.Results().At(0).Type().Underlying().(*types.Basic); !ok || bt.Kind() != types.Bool {
+		return nil
+	}
+	var sum *existsSummary
+	isMatch := func(cond ssa.Value, truth bool) bool {
+		bo, ok := cond.(*ssa.BinOp)
+		if !ok || bo.Op != token.EQL || !truth {
+			return false
+		}
+		for _, pr := range [][2]ssa.Value{{bo.X, bo.Y}, {bo.Y, bo.X}} {
+			prm, ok := pr[1].(*ssa.Parameter)
+			if !ok {
+				continue
+			}
+			np := -1
+			for i, q := range fn.Params {
+				if q == prm {
+					np = i
+				}
+			}
+			// the element side
+			elem := pr[0]
+			fld := ""
+			if b, f, ok := fieldLoad(elem); ok {
+				if _, isIA := b.(*ssa.IndexAddr); isIA {
+					elem, fld = b, f
+				} else if al, isAl := b.(*ssa.Alloc); isAl {
+					if sv := singleStore(al); sv != nil {
+						if ld, ok := sv.(*ssa.UnOp); ok {
+							if ia, ok := ld.X.(*ssa.IndexAddr); ok {
+								elem, fld = ia, f
+							}
+						}
+					}
+				} else if ld, isLd := b.(*ssa.UnOp); isLd {
+					if ia, ok := ld.X.(*ssa.IndexAddr); ok {
+						elem, fld = ia, f
+					}
+				}
+			}
+			var ia *ssa.IndexAddr
+			switch e := elem.(type) {
+			case *ssa.IndexAddr:
+				ia = e
+			case *ssa.UnOp:
+				ia, _ = e.X.(*ssa.IndexAddr)
+			}
+			if ia == nil {
+				continue
+			}
+			s := &existsSummary{nameParam: np, collParam: -1, elemField: fld, eq: bo}
+			if cp, ok := ia.X.(*ssa.Parameter); ok {
+				for i, q := range fn.Params {
+					if q == cp {
+						s.collParam = i
+					}
+				}
+			} else if _, f, ok := fieldLoad(ia.X); ok {
+				s.collField = f
+			} else {
+				continue
+			}
+			if sum == nil {
+				sum = s
+			}
+			return sum.nameParam == s.nameParam && sum.collParam == s.collParam && sum.collField == s.collField && sum.elemField == s.elemField
+		}
+		return false
+	}
+	for _, b := range fn.Blocks {
+		ret, ok := b.Instrs[len(b.Instrs)-1].(*ssa.Return)
+		if !ok {
+			continue
+		}
+		type src struct {
+			val ssa.Value
+			blk *ssa.BasicBlock
+		}
+		srcs := []src{{ret.Results[0], b}}
+		if phi, ok := ret.Results[0].(*ssa.Phi); ok && phi.Block() == b {
+			srcs = nil
+			for i, e := range phi.Edges {
+				srcs = append(srcs, src{e, b.Preds[i]})
+			}
+		}
+		for _, s := range srcs {
+			cb, isC := constBool(s.val)
+			if !isC {
+				return nil
+			}
+			if cb {
+				if !mustPassEdge(fn, s.blk, isMatch) {
+					return nil
+				}
+			} else {
+				// false only outside the scanning loop
+				for _, h := range fn.Blocks {
+					if l := naturalLoop(h); l != nil && l[s.blk] {
+						return nil
+					}
+				}
+			}
+		}
+	}
+	if sum == nil {
+		return nil
+	}
+	// the scanning loop is left only by exhaustion or by returning true
+	for _, h := range fn.Blocks {
+		l := naturalLoop(h)
+		if l == nil || !l[sum.eq.Block()] {
+			continue
+		}
+		for x := range l {
+			for _, s := range x.Succs {
+				if l[s] || x == h {
+					continue
+				}
+				ok := false
+				if ifi, isIf := x.Instrs[len(x.Instrs)-1].(*ssa.If); isIf && ifi.Cond == ssa.Value(sum.eq) && x.Succs[0] == s {
+					ok = true
+				}
+				if !ok {
+					return nil
+				}
+			}
+		}
+	}
+	existsCache[fn] = sum
+	return sum
 }
